@@ -131,6 +131,22 @@ Theorem C09_literals_tokens :
 Proof. exact literal_tokens_canon. Qed.
 Print Assumptions C09_literals_tokens.
 
+(* a negated integer of ANY size renders inside an array / a tuple exactly as at the top level: UInt64_0, Int64_-n
+   down to -2^63, beyond that Float64_ of the negated nearest float (instances of the theorem above; the first
+   version of the code printed Int64_-n in arrays and a wrapped-around Int64 in tuples) *)
+Theorem C09_nested_negation :
+  forall (pf : list N -> option fval) (itf : N -> fval),
+    (forall s f, pf s = Some f -> fval_ok f) ->
+    (forall n, fval_ok (itf n)) ->
+    (forall n, 18446744073709551616 <= n -> pf (dec n) = Some (itf n)) ->
+  forall n,
+    literal_of_tokens pf itf (toks (CArr [CNeg n])) = LOk (OLit (s_Array ++ canon_neg itf n ++ [93])) /\
+    literal_of_tokens pf itf (toks (CTup [CNat 1; CNeg n])) =
+      LOk (OLit (s_Tuple ++ s_UInt64 ++ dec 1 ++ s_comma_sp ++ canon_neg itf n ++ [41])) /\
+    literal_of_tokens pf itf (toks (CNeg n)) = LOk (OLit (canon_neg itf n)).
+Proof. exact nested_negation_canon. Qed.
+Print Assumptions C09_nested_negation.
+
 (* source level: the same from the source BYTES through the lexer model, for trees without float texts *)
 Theorem C09_literals_source :
   forall (pf : list N -> option fval) (itf : N -> fval),
@@ -156,19 +172,6 @@ Print Assumptions C09_model_total.
 (* ---------------------------------------------------------------------------------------------------------- *)
 (* where the faithful model contradicts the property text (findings, see the report of the check) *)
 
-(* -n for 2^63 < n < 2^64 inside an array / a tuple is NOT rendered as at the top level:
-   top level Float64_-18446744073709552000, in an array Int64_-18446744073709551615, in a tuple Int64_1 *)
-Theorem C09_nested_negation_refuted :
-  literal_of_tokens w_parse_float w_int_to_float (toks (CNeg w_n))
-    = LOk (OLit (s_Float64 ++ [45; 49; 56; 52; 52; 54; 55; 52; 52; 48; 55; 51; 55; 48; 57; 53; 53; 50; 48; 48; 48]))
-  /\ literal_of_tokens w_parse_float w_int_to_float (toks (CArr [CNeg w_n]))
-    = LOk (OLit (s_Array ++ s_Int64 ++ [45] ++ dec w_n ++ [93]))
-  /\ literal_of_tokens w_parse_float w_int_to_float (toks (CTup [CNat 1; CNeg w_n]))
-    = LOk (OLit (s_Tuple ++ s_UInt64 ++ [49; 44; 32] ++ s_Int64 ++ [49; 41]))
-  /\ canon w_parse_float w_int_to_float (CArr [CNeg w_n])
-    = s_Array ++ s_Float64 ++ [45; 49; 56; 52; 52; 54; 55; 52; 52; 48; 55; 51; 55; 48; 57; 53; 53; 50; 48; 48; 48; 93].
-Proof. exact nested_neg_refuted. Qed.
-Print Assumptions C09_nested_negation_refuted.
 
 (* a binary literal >= 2^64 (0b1 and 64 zeros) is printed as a STRING literal *)
 Theorem C09_big_binary_refuted :
@@ -198,6 +201,14 @@ Example ex_string_render :                     (* \'q\\\'\\\\\\n\\0<FF>é\' *)
   literal_of_source w_parse_float w_int_to_float (quote sample_value) =
   LOk (OLit [92; 39; 113; 92; 92; 92; 39; 92; 92; 92; 92; 92; 92; 110; 92; 92; 48; 255; 195; 169; 92; 39]).
 Proof. vm_compute. reflexivity. Qed.
+
+(* -(2^64-1): Float64_-18446744073709552000 at the top level, in an array and in a tuple *)
+Example ex_nested_negation :
+  literal_of_tokens w_parse_float w_int_to_float (toks (CNeg w_n)) = LOk (OLit w_neg_text)
+  /\ literal_of_tokens w_parse_float w_int_to_float (toks (CArr [CNeg w_n])) = LOk (OLit (s_Array ++ w_neg_text ++ [93]))
+  /\ literal_of_tokens w_parse_float w_int_to_float (toks (CTup [CNat 1; CNeg w_n]))
+    = LOk (OLit (s_Tuple ++ s_UInt64 ++ [49; 44; 32] ++ w_neg_text ++ [41])).
+Proof. exact nested_neg_example. Qed.
 
 (* 2^64-1 and -2^63 from source bytes *)
 Example ex_max_uint64 :
